@@ -44,6 +44,11 @@ loop:
 			return err
 		}
 	}
+	// Some filesystems have work left once all entries are written, like
+	// restoring the mtime of directories
+	if f, ok := fs.(interface{ finish() error }); ok {
+		return f.finish()
+	}
 	return nil
 }
 
